@@ -97,15 +97,24 @@ impl Stats {
         for (k, v) in o.viol_by_sig {
             *self.viol_by_sig.entry(k).or_default() += v;
         }
+        // Examples are chosen independently of the order in which workers finish: per signature the two
+        // smallest keys (shortest, then lexicographic) win, so the same tree gives the same replay file.
         for v in o.viol_examples {
-            let same = self.viol_examples.iter().filter(|x| x.sig == v.sig).count();
-            if same < 2 && self.viol_examples.len() < 40 {
-                self.viol_examples.push(v);
+            let same: Vec<usize> = (0..self.viol_examples.len()).filter(|i| self.viol_examples[*i].sig == v.sig).collect();
+            if same.len() < 2 {
+                if self.viol_examples.len() < 40 {
+                    self.viol_examples.push(v);
+                }
+            } else {
+                let worst = *same.iter().max_by_key(|i| key_order(&self.viol_examples[**i].key)).unwrap();
+                if key_order(&v.key) < key_order(&self.viol_examples[worst].key) {
+                    self.viol_examples[worst] = v;
+                }
             }
         }
         for (k, v) in o.known {
             let e = self.known.entry(k).or_default();
-            if e.count == 0 {
+            if e.count == 0 || key_order(&v.first_key) < key_order(&e.first_key) {
                 e.first_key = v.first_key;
                 e.first_what = v.first_what;
             }
@@ -121,6 +130,11 @@ impl Stats {
         self.supplement_evaluations += o.supplement_evaluations;
         self.machinery_errors.extend(o.machinery_errors);
     }
+}
+
+/// Total order on case keys used to pick examples deterministically: shorter first, then lexicographic.
+pub fn key_order(k: &str) -> (usize, &str) {
+    (k.len(), k)
 }
 
 /// Information captured from a panic inside `Cx::guard`.
